@@ -4,6 +4,7 @@ import FstVerif.Model.Stream
 import FstVerif.Model.Ops
 import FstVerif.Model.Lev
 import FstVerif.Model.Merge
+import FstVerif.Model.Sched
 import FstVerif.Model.Frontends
 import FstVerif.Spec.Format
 import FstVerif.Spec.Encode
@@ -397,10 +398,40 @@ def permute (seed : Nat) (g : Nat) (xs : List KV) : List KV :=
   let _ := n
   (keyed.foldr ins []).map (·.2)
 
-def cmdMerge (mode : String) (batch fd seed : Nat) (rows : String) : String :=
+/-- the events enabled in a state of the Sorters protocol (Model/Sched.lean) -/
+def enabledEvents (s : Sched.St) : List Sched.Ev :=
+  let ws := List.range s.workers.length
+  (ws.map Sched.Ev.recv ++ ws.map Sched.Ev.work ++ [Sched.Ev.close] ++ ws.map Sched.Ev.finish).filter
+    fun e => (Sched.step s e).isSome
+
+/-- a pseudo-random interleaving of one generation: at every point one of the enabled
+events, chosen by a seeded generator; stops in a terminal state (or when nothing is enabled) -/
+def randomExec : Nat → Nat → Sched.St → Sched.St
+  | 0, _, s => s
+  | fuel+1, rng, s =>
+    if s.terminal then s else
+    match enabledEvents s with
+    | [] => s
+    | evs =>
+      let rng' := (rng * 6364136223846793005 + 1442695040888963407) % 18446744073709551616
+      match Sched.step s (evs.getD ((rng' / 65536) % evs.length) .close) with
+      | some s' => randomExec fuel rng' s'
+      | none => s
+
+/-- the schedule of generation `g`: the order in which a random interleaving of the
+protocol with `threads` workers hands back the results -/
+def protoSched (threads seed : Nat) (g : Nat) (xs : List KV) : List KV :=
+  let s := randomExec (2 * xs.length + threads + 2) (seed * 1000003 + g + 1) (Sched.init threads xs.length)
+  if s.terminal then Sched.applyOrder s.collected xs else xs
+
+def cmdMerge (mode : String) (batch fd threads seed : Nat) (rows : String) : String :=
   let m := match mode with
     | "sum" => MergeMode.sum | "max" => .max | "min" => .min | _ => .set
-  match mergeAll m batch fd (permute seed) (parseRows rows) with
+  -- two schedules: an arbitrary permutation, and an interleaving of the thread protocol
+  let r1 := mergeAll m batch fd (permute seed) (parseRows rows)
+  let r2 := mergeAll m batch fd (protoSched (max threads 1) seed) (parseRows rows)
+  if r1 != r2 then "merge schedule-dependent" else
+  match r1 with
   | none => "merge stuck"
   | some kvs => "merge " ++ showKVs kvs
 
@@ -458,8 +489,11 @@ def step (st : DrvState) (line : String) : DrvState × String :=
     ({ st with utf8Full := parseFull s },
      if parseFull s == Spec.utf8Full then "utf8full ok" else "utf8full differs-from-Spec.utf8Full")
   | ["lev", q, d, limit] => (st, cmdLev st q d.toNat! limit.toNat!)
-  | "merge" :: mode :: batch :: fd :: _threads :: seed :: rest =>
-    (st, cmdMerge mode batch.toNat! fd.toNat! seed.toNat! (rest.headD ""))
+  | "merge" :: mode :: batch :: fd :: threads :: seed :: rest =>
+    (st, cmdMerge mode batch.toNat! fd.toNat! threads.toNat! seed.toNat! (rest.headD ""))
+  | "sched" :: threads :: total :: rest =>
+    let order := ((rest.headD "").splitOn ",").filterMap fun x => if x == "" then none else some x.toNat!
+    (st, s!"sched runs={Sched.runs order} valid={Sched.validOrder threads.toNat! total.toNat! order}")
   | ["spec", hex] => (st, cmdSpec hex)
   | ["enc", v, ty, style, share, kv] =>
     (st, "enc " ++ showBytes (Spec.encodeFst v.toNat! ty.toNat! (if kv == "." then [] else parseKV kv) style.toNat! (share == "1")).toArray)
